@@ -37,6 +37,8 @@ def jobs(tier):
         add(side="any", graph="gc-balanced-2", n=5, start=1, has_indel=True, heap_size=1e9, nvt=2)
         add(side="any", graph="gc-balanced-2", n=5, start=7, has_indel=True, heap_size=1, nvt=2)
         add(side="any", graph="mixed-2", n=4, start=0, has_indel=False, heap_size=1e9, nvt=0)
+        add(side="any", graph="AC-1", n=5, start=0, has_indel=True, heap_size=1e9, nvt=1)
+        add(side="any", graph="no-repeat-3", n=4, start=6, has_indel=True, heap_size=1e9, nvt=2)
     else:
         for n in (1, 2, 3, 4, 5):
             add(side="walk", graph="complete-1", n=n, start=n % 4, has_indel=True, heap_size=1e9, nvt=2 if n % 2 else 0)
